@@ -24,6 +24,8 @@ class C14(Prop):
             "Non-trivial = a timeout is in effect and the script contains a timer expiry or a process exit")
     trusted_base = C08.trusted_base
     assumptions = C08.assumptions + [
+        "start_timer converts the timeout with float() (fix of F-C14c): a numeric text from the environment works; "
+        "a non-numeric text raises ValueError in the main thread before anything is read -- not modelled",
         "threading.Timer contract: the function runs once after the interval unless cancelled first; the timer "
         "thread is alive until then (replaced by a scripted timer in the scripted runs)",
     ]
@@ -304,10 +306,7 @@ def program_timeout_sources(tier):
             continue
         f = {"case": case, "what": "timeout in effect differs from 'keyword > -T > environment variable > project "
                                    "file > collection configuration': Timer interval %s" % case["armed_interval"]}
-        srcs = set(case["sources"])
-        if "env" in srcs and not ({"kwarg", "cli"} & srcs) and case["armed_interval"] == repr(str(VAL["env"])):
-            f["finding"] = "F-C14c"
-        fails.append(f)
+        fails.append(f)          # (the env-only case was F-C14c, fixed: start_timer converts with float())
     return {"name": "program-timeout-sources", "evaluations": len(combos), "failures": fails,
             "note": "real Program.run over all 32 combinations of {timeout= keyword, -T, INVOKE_TIMEOUTS_COMMAND, "
                     "project invoke.yaml, collection configuration} (+ -T 0 with a project file); observed: the "
